@@ -36,6 +36,7 @@ type Run struct {
 	Decls []Decl
 
 	MapOrderSymbolic bool
+	MapOrderFuncs    []string
 	Unwind           int
 
 	mutexes map[*value]*mutexSt
